@@ -463,9 +463,11 @@ def r17_5(chk):
                     for b in lp.body:
                         for x in ast.walk(b):
                             if isinstance(x, ast.Assign) and x is not st and norm(x.targets[0]) == norm(arg) and isinstance(x.value, ast.Constant):
-                                # a reset directly in the innermost loop around the call restarts the names per block
+                                # a reset in the innermost loop around the call restarts the names per block; a reset in an
+                                # outer loop (per file) restarts them while the set of seen identifiers lives on across that loop
                                 inner = [l2 for l2 in ast.walk(lp) if isinstance(l2, (ast.For, ast.While)) and l2 is not lp and any(st is y for b2 in l2.body for y in ast.walk(b2))]
-                                if not inner:
+                                seen_outside = any(isinstance(a2, ast.Assign) and isinstance(a2.value, ast.Call) and call_name(a2.value) == "set" and a2.lineno < lp.lineno for a2 in walk_no_nested(fn))
+                                if not inner or seen_outside:
                                     reset_inside = True
             chk.decide(same and not reset_inside, "R17.5", k, m.loc(st), f"counter `{norm(arg)}` fed back", f"the call takes its counter from `{norm(arg)}` but stores the updated one in `{norm(out)}`" + (" (and resets it inside the block loop)" if reset_inside else "") + ": rows without an ID in a later block are given names already used in an earlier one")
     chk.floor("R17.5", 2, "GffAnnotationDb.__init__ and _db_from_gff")
